@@ -223,6 +223,9 @@ func (handler *Handler) loadByteArray(source []byte) (net1 *dhcpSubnet, net2 *dh
 				fmt.Printf("dhcp4: load config invalid clientID %v \n", v)
 				continue
 			}
+			if v.DHCPExpiry.Before(time.Now()) { // the lease ran out while it was on disk
+				continue
+			}
 
 			// if mac is captured, validate the IP is in the net2 subnet
 			if handler.session.IsCaptured(v.Addr.MAC) {
